@@ -19,7 +19,8 @@ EXPLANATION = (
     'inputs reach the combinators only through clear_features(..nb..); R14.5 unary lookup returns [] for unknown '
     'categories and one result per configured target, in order, unfiltered; R14.6 enumerated exception sources: matcher '
     'protocol (R6.2), shape-specific attribute reads guarded by shape tests or a successful pattern match, feature '
-    'methods available on every feature class.  Exceptions outside these classes (e.g. recursion depth) are not decided.')
+    'methods available on every feature class.  Exceptions outside these classes (e.g. recursion depth) are not decided.'
+    ' Third round: a literal table indexed by a computed value must be total (R14.6 partial-lookup).')
 TRUSTED = ['CPython ast', 'sa/pysym.py path walker', 'frozen dataclasses (checked by C13)', 'rule table DESIGN.md C14']
 
 EN, JA, UNI, CAT = rg.EN, rg.JA, ru.UNI, 'depccg/cat.py'
@@ -189,6 +190,79 @@ def r_gate(repo, rep):
                       % [tuple(show(q) for q in a) for a in args_seen])
 
 
+def r_partial_lookups(repo, rep, R='R14.6'):
+    """a literal table indexed by a computed value answers only for the values it lists: `('A', 'B', 'C')[x.nargs]` raises
+    IndexError for a category with more arguments, `{..}[key]` KeyError for an unlisted key.  Such a lookup is total only
+    when the index is a truth value into a pair, or the key was tested with `in` / `.get` is used."""
+    n = 0
+    for mod, fn in closure_functions(repo):
+        consts = {}
+        for s_ in mod.tree.body:
+            if isinstance(s_, ast.Assign) and isinstance(s_.value, (ast.Tuple, ast.List, ast.Dict)) and len(s_.targets) == 1 and isinstance(s_.targets[0], ast.Name):
+                consts[s_.targets[0].id] = s_.value
+        for node in ast.walk(fn):
+            if not isinstance(node, ast.Subscript) or not isinstance(node.ctx, ast.Load):
+                continue
+            table = node.value
+            if isinstance(table, ast.Name) and table.id in consts and not any(
+                    isinstance(x, ast.Name) and x.id == table.id and isinstance(x.ctx, ast.Store) for x in ast.walk(fn)):
+                table = consts[table.id]
+            if not isinstance(table, (ast.Tuple, ast.List, ast.Dict)):
+                continue
+            idx = node.slice
+            if isinstance(idx, (ast.Constant, ast.Slice)) or (isinstance(idx, ast.UnaryOp) and isinstance(idx.operand, ast.Constant)):
+                continue
+            n += 1
+            size = len(table.keys) if isinstance(table, ast.Dict) else len(table.elts)
+            w = '%s:%s %s' % (mod.rel, node.lineno, qualname_of(fn))
+            total = False
+            why = ''
+            if not isinstance(table, ast.Dict) and size == 2 and isinstance(idx, (ast.Compare, ast.BoolOp)) or \
+                    (isinstance(idx, ast.UnaryOp) and isinstance(idx.op, ast.Not)) or \
+                    (isinstance(idx, ast.Call) and src(idx.func) == 'bool'):
+                total, why = size == 2, 'a truth value indexes a pair'
+            elif isinstance(table, ast.Dict) or isinstance(node.value, ast.Name):
+                # inside a branch taken only for keys the table lists: `if key in ')>':` .. TABLE[key]
+                key = src(idx)
+                if isinstance(table, ast.Dict) and all(isinstance(k_, ast.Constant) for k_ in table.keys):
+                    keys = {k_.value for k_ in table.keys}
+                    child = node
+                    for anc in _parents_of(node):
+                        if isinstance(anc, ast.If) and any(child is b_ or any(child is x for x in ast.walk(b_)) for b_ in anc.body):
+                            tests = anc.test.values if isinstance(anc.test, ast.BoolOp) and isinstance(anc.test.op, ast.And) else [anc.test]
+                            for t in tests:
+                                if isinstance(t, ast.Compare) and len(t.ops) == 1 and src(t.left) == key:
+                                    members = None
+                                    c0 = t.comparators[0]
+                                    if isinstance(t.ops[0], ast.In):
+                                        if isinstance(c0, ast.Constant) and isinstance(c0.value, str):
+                                            members = set(c0.value)
+                                        else:
+                                            got = rg.const_strings(mod, c0)
+                                            if got is None and isinstance(c0, ast.Name):
+                                                cv = [s_.value for s_ in mod.tree.body if isinstance(s_, ast.Assign) and len(s_.targets) == 1
+                                                      and isinstance(s_.targets[0], ast.Name) and s_.targets[0].id == c0.id]
+                                                if len(cv) == 1 and isinstance(cv[0], ast.Constant) and isinstance(cv[0].value, str):
+                                                    got = list(cv[0].value)
+                                            members = set(got) if got is not None else None
+                                    elif isinstance(t.ops[0], ast.Eq) and isinstance(c0, ast.Constant):
+                                        members = {c0.value}
+                                    if members is not None and members <= keys:
+                                        total, why = True, 'reached only for keys %s, all listed' % sorted(members)
+                        if isinstance(anc, (ast.FunctionDef, ast.Lambda)):
+                            break
+                        child = anc
+                for t in ast.walk(fn):
+                    if isinstance(t, ast.Compare) and len(t.ops) == 1 and isinstance(t.ops[0], (ast.In, ast.NotIn)) and src(t.left) == key \
+                            and src(t.comparators[0]) == src(node.value) and t.lineno <= node.lineno:
+                        total, why = True, 'the key is tested with `in` first'
+            rep.check(total, R, w, '%s:%s:partial-lookup:%s' % (mod.rel, qualname_of(fn), src(node)[:40]),
+                      'the literal table lookup `%s` is total (%s)' % (src(node)[:60], why),
+                      'the literal table of %d entries is indexed by the computed value `%s`: any other value raises instead of giving an answer'
+                      % (size, src(idx)[:40]))
+    return n
+
+
 def r_unary(repo, rep, R='R14.5'):
     for rel in (EN, JA):
         mod = repo.module(rel)
@@ -301,6 +375,7 @@ def check(repo, rep, tier):
             continue
         n_reads += ru.r_shape_safety(repo, rep, mod, fn, 'R14.6')
     rep.floor('shape-specific attribute reads judged', n_reads, 40)
+    r_partial_lookups(repo, rep)
     nf = r_feature_methods(repo, rep)
     rep.floor('feature member reads judged', nf, 3)
     for rel in (EN, JA):
